@@ -21,6 +21,9 @@
 //       14 s     read once through the snapshot in slot s (returns the value)
 //       15 s     drop the snapshot in slot s
 //       16 a b   copy the snapshot of slot a into the empty slot b
+//       17 s     release the write handle in slot s from a scope guard's destructor while an unrelated exception unwinds
+//                the stack (std::uncaught_exceptions() == 1); the exception is caught inside the operation, which returns
+//                normally.  The commit must happen exactly as for op 7.
 // An op on a slot in the wrong state (occupied / empty / out of range) returns -1 without touching the library.
 #include "vstd.hpp"
 #include "vpay.hpp"
@@ -107,6 +110,20 @@ struct CowImpl {
         const long k = o[0];
         auto& W = ws[(size_t)tid];
         auto& S = ss[(size_t)tid];
+        if (k == 17) {
+            if (a < 0 || a >= nw || !W[(size_t)a]) return -1;
+            auto& slot = W[(size_t)a];
+            try {
+                struct Guard {
+                    std::optional<WH>& s;
+                    ~Guard() { s.reset(); }  // ~handle -> deleter::operator() runs during unwinding
+                } guard{slot};
+                throw 1;
+            }
+            catch (int) {
+            }
+            return 0;
+        }
         if (k <= 9) {
             if (a < 0 || a >= nw) return -1;
             auto& h = W[(size_t)a];
